@@ -1,7 +1,6 @@
 package handler
 
 import (
-	"bytes"
 	"errors"
 	"fmt"
 	"io"
@@ -250,18 +249,31 @@ func (h *Handler) HandleReadFile(ctx *Context, limit uint32, offset uint64, wr s
 		return nil
 	}
 
-	var buf bytes.Buffer
-
-	// read by position: offset may be far beyond the end of file (even beyond what filesystem can seek to), it's just an empty read
-	n, err := buf.ReadFrom(io.NewSectionReader(ctx.State.ROFile, int64(offset), int64(limit)))
+	// Amount of data goes first, so we have to know it before reading. Client may ask up to 4Gb by one request,
+	// so data must not be collected in memory: it's counted by file size and then streamed.
+	stat, err := ctx.State.ROFile.Stat()
 	if err != nil {
-		return fmt.Errorf("read failed: %w", err)
+		return fmt.Errorf("stat failed: %w", err)
 	}
 
-	log.DebugContext(ctx, "Read file", slog.Int64("read", n))
+	if stat.IsDir() {
+		return fmt.Errorf("read failed: %s is a directory", stat.Name())
+	}
 
-	wr.WriteHeader(int32(n))
-	_, err = buf.WriteTo(wr)
+	var toRead int64
+	if int64(offset) < stat.Size() {
+		toRead = min(int64(limit), stat.Size()-int64(offset), math.MaxInt32) // amount is sent as signed 32-bit number
+	}
+
+	log.DebugContext(ctx, "Read file", slog.Int64("read", toRead))
+
+	wr.WriteHeader(int32(toRead))
+	if toRead == 0 {
+		return nil
+	}
+
+	// read by position: cursor of the file is not involved
+	_, err = h.Copier.CopyN(wr, io.NewSectionReader(ctx.State.ROFile, int64(offset), toRead), toRead)
 	return err
 }
 
